@@ -381,9 +381,11 @@ def run(rep):
     if not ok:
         raise common.MachineryError("cargo build failed: " + out[-2000:])
     if tier == "quick":
-        nprog, nseeds, max_tasks, max_depth = 110, 24, 10, 3
+        nprog, nseeds, max_tasks, max_depth = 150, 30, 10, 3
     else:
         nprog, nseeds, max_tasks, max_depth = 1500, 60, 40, 4
+    if os.environ.get("C17_NPROG"):  # self-test knob: fewer programs, same generators
+        nprog = int(os.environ["C17_NPROG"])
     cases = []
     for tasks in handmade():
         cases.append(make_case(rng, tasks, nseeds, analysis(tasks)))
@@ -407,10 +409,19 @@ def run(rep):
     act_hist, ev_hist = {}, {}
     n_runs = n_stall = n_ext = 0
     confirmations = {"yes": 0, "runs": 0}
+    crashed = False
     res_hist = {"ok": 0, "err": 0, "panic": 0, "hang": 0}
     for ci, (c, o) in enumerate(zip(cases, outs)):
-        if "crash" in o or "skipped" in o:
-            raise common.MachineryError(f"harness crashed on program {ci}: {str(o)[:1500]}")
+        if "crash" in o:
+            # the process died (signal / abort) while running this program: tasks outliving their
+            # scope is a memory-safety violation of exactly this property (scope.rs relies on it)
+            rep.violation(f"process crashed (rc={o.get('rc')}) while executing a task-tree program: a scope returned or was dropped while its tasks were still running?",
+                          {"failing_input": {"tasks": c["tasks"], "seed": c["seeds"][0], "seeds": c["seeds"], "ext_after": c["ext_after"],
+                                             "log": [], "res": [3, 0], "failed": "process crashed", "stderr": o.get("stderr", "")[-800:]}})
+            crashed = True
+            break
+        if "skipped" in o:
+            continue
         for td in c["tasks"]:
             for a in td["acts"]:
                 act_hist[a[0]] = act_hist.get(a[0], 0) + 1
@@ -445,7 +456,9 @@ def run(rep):
                                       coq_cases, shard_size=max(20, len(coq_cases) // 32 + 1), sample_ids=sample_ids)
     if mm:
         broken.append(f"trace acceptance vh scope vs Model.Scope.replay: {len(mm)} logs are not executions of the model / results differ")
-    if pred_fail:
+    if crashed:
+        pass
+    elif pred_fail:
         f = pred_fail[0]
         rep.violation("task scope violates C17 on the implementation: " + f["failed"],
                       {"failing_input": f, "more": [{k: x[k] for k in ("failed", "seed")} for x in pred_fail[1:4]], "broken": broken})
@@ -479,7 +492,7 @@ def run(rep):
         "samples": [{"program": cases[meta[i][0]]["tasks"], "log": outs[meta[i][0]]["runs"][meta[i][1]]["log"],
                      "impl_result": outs[meta[i][0]]["runs"][meta[i][1]]["res"], "model_obs": samp.get(i)} for i in sample_ids],
         "correspondence_mismatches": len(mm), "predicate_failures": len(pred_fail),
-        "partial": "theorems are about the model's transition system (all programs, all schedules); negative observations (context still active) are not logged, so 'cancelled as soon as' is checked as: every wait is released with a cause before it, and no run stalls while a cause exists; tasks spawn only into their own scope and join only their own children; Arc/JoinHandle/Semaphore atomicity and the must-complete guard are assumed (H-ATOM)",
+        "partial": "proved for every program and every schedule of the model: guard counts = live tasks, terminated <=> no live task, run! returns only then (nested scopes transitively), result = root value / first set_err / panic, cancellation at first error, at last main guard, one watcher step after the caller, reaching all descendants, and soundness of the replayer. Not proved but checked on the implementation: liveness (no stall while a cancellation cause exists, no hang after the caller is cancelled) and completeness of the replayer (every real log is accepted). Not covered: negative observations (ctx still active) are not logged; tasks spawn only into their own scope and join only their own children; Arc/Weak/Mutex/Semaphore/JoinHandle atomicity and the must-complete guard are assumed (H-ATOM)",
     })
     rep.assumptions += ["H-ATOM (DESIGN 2.3): atomicity grain of Arc drop, Weak::upgrade, Mutex section of set_err, Semaphore close, JoinHandle completion"]
 
